@@ -143,6 +143,13 @@ def run(tier, seed, replay=None):
         v.violation("C07|%s" % name, "%s fails on configuration %s: obs=%s" % (
             name, "".join(k for k in T4_FLAGS if not c["f"][k]) or "all-true",
             {k: c[k] for k in c if k != "f"}), c)
+    # not part of the property (it speaks about converged runs only): a configuration with an energised reference that
+    # the library fails to solve is recorded as a divergence, e.g. the IndexError in newtonpf for a single live bus
+    conf, _ = tlc_obs("TopoC07Obs", "TopoC07Conf.cfg", cases)
+    for name, i in conf:
+        c = cases[i]
+        v.divergence("%s: configuration %s not solved: %s %s" % (name, "".join(k for k in T4_FLAGS if not c["f"][k]),
+                                                                    c.get("err_ac", ""), c.get("err_dc", "")))
     nontriv = sum(1 for c in cases if c["conv_ac"] and c["unsup"] and any(
         (not c["f"][k]) for k in ("s0", "s1", "s2", "s3", "s4", "l0", "l1", "l2", "t0", "w0"))
         and len(c["unsup"]) < sum(c["f"][b] for b in ("b0", "b1", "b2", "b3")))
